@@ -72,6 +72,10 @@ func Parse(b []byte, reuse *ParsedJson, opts ...ParserOption) (*ParsedJson, erro
 	if err != nil {
 		return nil, err
 	}
+	if pj.copyStrings {
+		// All strings were copied: do not keep a reference to the caller's buffer.
+		pj.Message = nil
+	}
 	parsed := &pj.ParsedJson
 	parsed.internal = pj
 	return parsed, nil
@@ -87,6 +91,9 @@ func ParseND(b []byte, reuse *ParsedJson, opts ...ParserOption) (*ParsedJson, er
 	err = pj.parseMessage(bytes.TrimSpace(b), true)
 	if err != nil {
 		return nil, err
+	}
+	if pj.copyStrings {
+		pj.Message = nil
 	}
 	return &pj.ParsedJson, nil
 }
